@@ -408,6 +408,13 @@ def specials_c09():
         main += gen.call_site(kind, 0xF1F1, [("PUSH", 0)], 0x100, 64, 0x500, 0x30) + flag_and_probe()
         main += [("PUSH", 0x500), "MLOAD", ("PUSH", 0x440), "MSTORE", ("PUSH", 0x520), "MLOAD", ("PUSH", 0x460), "MSTORE"] + ret_words(4)
         sp(f"failing-call-output-window-{kind.lower()}", main, {0xF1F1: gen.callee_readonly_mutate()}, f"output-window-{kind}")
+    # --- RETURNDATACOPY windows: non-zero source offsets, windows ending exactly at / before the end, over dirty memory ----
+    for off, size in ((32, 32), (8, 40), (1, 1), (31, 2), (64, 0), (0, 64), (40, 24), (63, 1)):
+        main = [("PUSH", 4), "CALLDATALOAD", ("PUSH", 0x100), "MSTORE"]
+        main += gen.call_site("CALL", B, [("PUSH", 0)], 0x100, 32, 0x500, 0) + flag_and_probe()
+        main += [("PUSH", (1 << 256) - 1), ("PUSH", 0x440), "MSTORE", ("PUSH", (1 << 256) - 1), ("PUSH", 0x460), "MSTORE"]  # dirty destination
+        main += [("PUSH", size), ("PUSH", off), ("PUSH", 0x441), "RETURNDATACOPY", "MSIZE", ("PUSH", 0x4A0), "MSTORE"] + ret_words(6)
+        sp(f"returndatacopy-window-{off}-{size}", main, {B: gen.callee_short(64)}, "RETURNDATACOPY-window")
     # --- symbolic call target: every known account is an alias candidate, anything else is an empty account ------------
     for kind in ("CALL", "STATICCALL", "DELEGATECALL"):
         for val in ([("PUSH", 0)], [("PUSH", 1)]):
